@@ -187,7 +187,26 @@ def o_setter(inp):
     return (None, True, ("setter",))
 
 
-SUBS = {"write": o_write, "columns": o_columns, "setter": o_setter}
+def o_reuse(inp):
+    """One BibtexFormat object used for several writes with its settings changed in between:
+    inp {"lib": [block specs], "fmts": [format spec, ...]} - every write must obey the settings current at that time."""
+    lib = libgen.build_library(inp["lib"])
+    fmt = BibtexFormat()
+    for i, f in enumerate(inp["fmts"]):
+        for k in libgen.FORMAT_ATTRS:
+            if k in f and f[k] is not None:
+                setattr(fmt, k, f[k])
+        cur = {k: getattr(fmt, k) for k in libgen.FORMAT_ATTRS}
+        text = bwriter.write(lib, fmt)
+        exp = ref_render(lib, cur)
+        if text != exp:
+            return (("reuse:stale-format-state", f"write #{i} with {cur!r}: {text!r}", repr(exp)), True, ("format-reuse",))
+        if {k: getattr(fmt, k) for k in libgen.FORMAT_ATTRS} != cur:
+            return (("reuse:format-mutated", repr({k: getattr(fmt, k) for k in libgen.FORMAT_ATTRS}), repr(cur)), True, ("format-reuse",))
+    return (None, len(inp["fmts"]) >= 2, ("format-reuse",))
+
+
+SUBS = {"write": o_write, "columns": o_columns, "setter": o_setter, "reuse": o_reuse}
 
 FIXED_LIBS = [
     [{"t": "entry", "type": "article", "key": "k", "fields": [["a", "{1}", 0], ["title", "{T}", 1], ["averyveryverylongkeyindeed", "{L}", 2]], "line": 0, "raw": "r"},
@@ -212,6 +231,10 @@ def w_grid(acc):
                             acc.run("write", o_write, {"lib": lib, "fmt": f, "via": "writer"}, True)
         acc.run("write", o_write, {"lib": lib, "fmt": None, "via": "writer"}, True)
         acc.run("write", o_write, {"lib": lib, "fmt": None, "via": "write_string"}, True)
+    for lib in FIXED_LIBS[:2]:
+        for a, b, c in itertools.permutations([0, 5, 12, 30, "auto"], 3):
+            for ind in ("\t", ""):
+                acc.run("reuse", o_reuse, {"lib": lib, "fmts": [{"value_column": a, "indent": ind}, {"value_column": b, "trailing_comma": True}, {"value_column": c, "indent": "  ", "block_separator": "\n"}]}, True)
     for v in [-1, -5, 0, 1, 40, 1000, "auto", "Auto", "", "10", None, 1.5, [1], -(10**9)]:
         acc.run("setter", o_setter, {"value": v}, True)
 
@@ -244,6 +267,8 @@ def w_random(acc, n, seed):
     cols = st.fixed_dictionaries({"keys": st.lists(st.lists(fkey, max_size=6), min_size=1, max_size=4),
                                   "fmt": libgen.st_format(separators=["\n\n", "\n", ""], comments=False)})
     harness.run_hyp(acc, "columns", o_columns, cols, max(100, n // 3), seed)
+    reuse = st.fixed_dictionaries({"lib": libgen.st_writer_library(5), "fmts": st.lists(libgen.st_format(), min_size=2, max_size=4)})
+    harness.run_hyp(acc, "reuse", o_reuse, reuse, max(100, n // 6), seed)
     harness.run_hyp(acc, "setter", o_setter, st.fixed_dictionaries({"value": st.one_of(st.integers(-50, 100), st.text(max_size=5), st.floats(allow_nan=False), st.none())}), 200, seed)
 
 
@@ -269,4 +294,4 @@ def run(chk):
         "and library unchanged; value_column setter validation. Non-trivial: an entry with >= 2 fields under a non-default "
         "format (write), >= 2 fields (columns); distinct by case."
     )
-    chk.required_classes = ["auto", "auto>=2entries", "key-longer-than-column", "empty-indent", "zero-fields+trailing-comma", "failed+custom-comment", "non-blank-separator", "columns", "setter"]
+    chk.required_classes = ["auto", "auto>=2entries", "key-longer-than-column", "empty-indent", "zero-fields+trailing-comma", "failed+custom-comment", "non-blank-separator", "columns", "setter", "format-reuse"]
